@@ -10,7 +10,7 @@ PROPS_MODULES = ["C13.Props"]
 RUN_MODULE = "C13.Run"
 RUN_FN = "run_case"
 HARNESS_BIN = "c13"
-HARNESS_BINS = ["c13", "c03bb"]
+HARNESS_BINS = ["c13", "c03bb", "c03h2bb"]
 SHRINK_KEEP = ("ctx", "req", "rsp")
 RULE = ("cases: one listener/session context (peer v4/v6/absent, public address, http/https, sticky name, closing, "
         "elide/send X-Real-IP, correlation header name incl. names colliding with the reserved ones), a header list "
@@ -318,7 +318,32 @@ def extra_stage(tier, rng, work):
         for ob in o["obs"]:
             if ob and ob[0] == "seen":
                 seen += ob[1]
-    return dict(failures=problems, viols=viols, coverage=dict(blackbox_cases=len(cases), blackbox_requests_seen_by_backend=seen))
+    # HTTP/2 frontend half (TLS h2 client, HTTP/1.1 and h2c recording backends): the metadata / trailer
+    # oracle of the driver c03h2bb on well-formed streams carrying client copies of the proxy-owned names
+    import props.c03 as C03
+    streams = []
+    for i in range({"quick": 45, "thorough": 600}.get(tier, 45)):
+        for _ in range(20):
+            c = C03.h2_scenario(rng, "w%d" % i)
+            if c.tags["fr"] in ("exact", "nocl", "nocl-trl", "es"):
+                break
+        streams.append(c)
+    outs2, problems2 = vlib.run_harness("c03h2bb", streams, os.path.join(work, "h2bb"), "release", timeout=300, shards=6)
+    problems += problems2
+    h2seen = 0
+    for c in streams:
+        o = outs2.get(c.id)
+        if o is None:
+            problems.append("black-box h2: no result for case %s" % c.id)
+            continue
+        for (vc, vt) in o["viol"]:
+            viols.append((c, vc, vt))
+        for ob in o["obs"]:
+            if ob and ob[0] == "client" and ob[1] == "answered":
+                h2seen += 1
+    return dict(failures=problems, viols=viols,
+                coverage=dict(blackbox_cases=len(cases), blackbox_requests_seen_by_backend=seen,
+                              blackbox_h2_streams=len(streams), blackbox_h2_answered=h2seen))
 
 
 def corpus_cases():
